@@ -401,6 +401,24 @@ fn mem_ops(base: u64, part: u64, parts: u64) -> u64 {
     acc
 }
 
+fn plan_string(p: &[Vec<(u64, u64)>]) -> String {
+    p.iter().map(|t| t.iter().map(|(k, tag)| format!("{}:{}", k, tag)).collect::<Vec<_>>().join(",")).collect::<Vec<_>>().join("|")
+}
+
+fn parse_plan(s: &str) -> Vec<Vec<(u64, u64)>> {
+    s.split('|')
+        .filter(|t| !t.is_empty())
+        .map(|t| {
+            t.split(',')
+                .filter_map(|c| {
+                    let (k, tag) = c.split_once(':')?;
+                    Some((k.parse().ok()?, tag.parse().ok()?))
+                })
+                .collect()
+        })
+        .collect()
+}
+
 fn main() {
     let a: Vec<String> = std::env::args().collect();
     let mode = a.get(1).map(|s| s.as_str()).unwrap_or("");
@@ -439,6 +457,22 @@ fn main() {
             let acc = mem_ops(base, part, parts);
             println!("MEM part={} of {} checksum={:x}", part, parts, acc);
         }
+        "planraw" => {
+            // mirithreads planraw <base> <nw> <w>: the workload as an explicit plan string (threads '|', calls kind:tag ',')
+            let w: u64 = a.get(4).and_then(|s| s.parse().ok()).unwrap_or(0);
+            println!("{}", plan_string(&workload(base, w)));
+        }
+        "expectplan" => {
+            // mirithreads expectplan <base> <nw> <plan string>: the sequential results of an explicit plan
+            let plan = parse_plan(a.get(4).map(|s| s.as_str()).unwrap_or(""));
+            let mut out = Vec::new();
+            for t in plan {
+                for (k, tag) in t {
+                    out.push(format!("{:x}", op(k, tag)));
+                }
+            }
+            println!("{}", out.join(","));
+        }
         "plan" => {
             for w in 0..nw {
                 let p: Vec<String> = workload(base, w).iter().map(|t| t.iter().map(|(k, tag)| format!("{}#{:x}", OP_NAMES[*k as usize], tag & 0xffff)).collect::<Vec<_>>().join(" ")).collect();
@@ -447,7 +481,8 @@ fn main() {
         }
         "run" => {
             let table: Vec<&str> = a.get(4).map(|s| s.split(';').collect()).unwrap_or_default();
-            assert_eq!(table.len() as u64, nw, "expectation table does not match the number of workloads");
+            let has_plan = a.iter().any(|x| x.starts_with("plan="));
+            assert!(has_plan || table.len() as u64 == nw, "expectation table does not match the number of workloads");
             let w = match a.get(5).and_then(|s| s.parse::<u64>().ok()) {
                 Some(i) => i % nw,
                 None => {
@@ -461,8 +496,12 @@ fn main() {
                     x % nw
                 }
             };
-            let plan = workload(base, w);
-            let expected: Vec<u64> = table[w as usize].split(',').filter_map(|x| u64::from_str_radix(x, 16).ok()).collect();
+            // an explicit plan (a minimised workload) and its expectations replace the generated ones: plan=.. exp=..
+            let explicit = a.iter().find_map(|x| x.strip_prefix("plan=")).map(parse_plan);
+            let explicit_exp: Option<Vec<u64>> = a.iter().find_map(|x| x.strip_prefix("exp=")).map(|e| e.split(',').filter_map(|x| u64::from_str_radix(x, 16).ok()).collect());
+            let plan = explicit.unwrap_or_else(|| workload(base, w));
+            let expected: Vec<u64> = explicit_exp.unwrap_or_else(|| table[w as usize].split(',').filter_map(|x| u64::from_str_radix(x, 16).ok()).collect());
+            assert_eq!(expected.len(), plan.iter().map(|t| t.len()).sum::<usize>(), "expectations do not match the plan");
             let threads = plan.len();
             println!("WORKLOAD {} threads={} first={}", w, threads, if w >= 2 * NOPS + 31 { format!("{}_x10_after_warmup", OP_NAMES[((w - 2 * NOPS - 31) % 31) as usize]) } else if w >= 2 * NOPS { format!("{}_x10", OP_NAMES[((w - 2 * NOPS) % 31) as usize]) } else { OP_NAMES[(w % NOPS) as usize].to_string() });
             // "seq": the same threads, one after the other (each joined before the next starts): tells whether a failure
